@@ -18,8 +18,12 @@ import tracegen
 import viewcmp
 import c06
 
-DESC = {"looms": [{"name": "L", "cpus": [(0, 0), (1, 1)], "procs": [{"pid": 1, "appid": 1, "threads": [10]}]}]}
-KEY = ("L", 1, 10)
+# three threads in two processes: lint must look at every thread, not only the
+# first one of a process
+DESC = {"looms": [{"name": "L", "cpus": [(0, 0), (1, 1), (2, 2)],
+                   "procs": [{"pid": 1, "appid": 1, "threads": [10, 11]}, {"pid": 2, "appid": 2, "threads": [20]}]}]}
+KEYS = [("L", 1, 10), ("L", 1, 11), ("L", 2, 20)]
+KEY = KEYS[0]
 LINT_MODELS = "V6DMTP"
 
 
@@ -133,13 +137,19 @@ def gen_words(chk, mc, quick):
     return out
 
 
-def word_to_hist(word):
-    h = [(1000, KEY, "OHx", obs.i32(0, 10, 0), False)]
+def word_to_hist(word, thread=0):
+    """The word runs on KEYS[thread]; the other two threads only execute and end."""
+    h = []
     t = 1000
+    for i, k in enumerate(KEYS):
+        h.append((t, k, "OHx", obs.i32(i, k[2], 0), False)); t += 3
+    key = KEYS[thread]
     for e in word:
         t += 3
-        h.append((t, KEY, e, b"", False))
-    h.append((t + 3, KEY, "OHe", b"", False))
+        h.append((t, key, e, b"", False))
+    for k in KEYS:
+        t += 3
+        h.append((t, k, "OHe", b"", False))
     return h
 
 
@@ -151,7 +161,7 @@ def run_word(case):
     mc = case["mc"]
     sp = refemu.spec()
     enabled = mc + ("K" if mc != "K" else "")
-    hist = word_to_hist(case["word"])
+    hist = word_to_hist(case["word"], case.get("thread", 0))
     model = refemu.FullSystem(DESC, enabled, {})
     bad = None
     tv, cv = [], []
@@ -215,8 +225,9 @@ def main(argv):
     quick = chk.tier == "quick"
     cases = []
     for mc in "V6DMTPK":
-        for c in gen_words(chk, mc, quick):
+        for n, c in enumerate(gen_words(chk, mc, quick)):
             c["mc"] = mc
+            c["thread"] = n % 3
             cases.append(c)
     # ovni flush channel (single, set/unset): OF[ OF] pairs, double OF[, OF] alone
     for w, kind in ((["OF[", "OF]"], "pair"), (["OF[", "OF[", "OF]"], "fault-double-enter"), (["OF]"], "fault-unmatched-leave"),
@@ -224,7 +235,7 @@ def main(argv):
         cases.append({"mc": "O", "kind": kind, "word": w, "lint": False})
     if chk.replay:
         rp = json.load(open(chk.replay))["replay"]
-        cases = [{"mc": rp["mc"], "kind": rp["kind"], "word": rp["word"], "lint": rp["lint"]}]
+        cases = [{"mc": rp["mc"], "kind": rp["kind"], "word": rp["word"], "lint": rp["lint"], "thread": rp.get("thread", 0)}]
     n = acc = rej = 0
     kinds = {}
     seen = set()
@@ -235,13 +246,14 @@ def main(argv):
             chk.note_inconclusive(v[1]); continue
         n += 1
         kinds[c["kind"]] = kinds.get(c["kind"], 0) + 1
-        seen.add((c["mc"], c["kind"], tuple(c["word"][:40]), c["lint"]))
+        seen.add((c["mc"], c["kind"], tuple(c["word"][:40]), c["lint"], c.get("thread", 0)))
         if res["acc"]:
             acc += 1
         else:
             rej += 1
         if v:
             chk.report(v[0], v[1], {"mc": c["mc"], "kind": c["kind"], "word": c["word"][:600], "lint": c["lint"],
+                                    "thread": c.get("thread", 0),
                                     "observation": v[2] if len(v) > 2 else {}})
     cov = {"evaluations": n, "distinct_nontrivial": len(seen),
            "rule": "per model (nOS-V, Nanos6, NODES, MPI, TAMPI, OpenMP, kernel, ovni flush): every enter/leave pair once with "
